@@ -58,6 +58,7 @@ class State:
         s.locked = getattr(self, 'locked', 0)
         s.iter = getattr(self, 'iter', None)
         s.ptr_lo = dict(getattr(self, 'ptr_lo', None) or {})
+        s.env_epoch = getattr(self, 'env_epoch', 0)
         s.actions = getattr(self, 'actions', [])
         s.pending_action = getattr(self, 'pending_action', None)
         return s
